@@ -20,3 +20,20 @@ def beat_infogain_duplicates(case, observed):
         return False
     v = observed.get("Information gain") if isinstance(observed, dict) else None
     return isinstance(v, float) and v != v
+
+
+def evaluate_indexerror_before_validation(case, observed):
+    """segment.evaluate / chord.evaluate adjust spans before validating: 1-d interval arrays and label-count
+    mismatches surface as IndexError instead of ValueError."""
+    if case.get("kind") != "fault" or case.get("entry") not in ("segment.evaluate", "chord.evaluate"):
+        return False
+    if case.get("fault") not in ("1-d", "drop-one", "add-one"):
+        return False
+    return isinstance(observed, str) and observed.startswith("raised IndexError")
+
+
+def multipitch_negative_frequency(case, observed):
+    """util.validate_frequencies(allow_negatives=False) never rejects a negative frequency."""
+    return (case.get("kind") == "fault" and case.get("entry") in ("multipitch.metrics", "multipitch.evaluate")
+            and case.get("fault") == "freq-negative" and isinstance(observed, str)
+            and observed.startswith("returned"))
